@@ -20,6 +20,11 @@ use crate::tracked::{self, St, TKey, TVal};
 
 pub trait VK: Hash + Eq + Clone + MemSize + Sized + 'static {
     const TRACKED: bool;
+    /// the borrowed form lookups may go through (`K: Borrow<Q>`)
+    type Q: ?Sized + Hash + Eq;
+    fn with_q<R>(k: u16, f: impl FnOnce(&Self::Q) -> R) -> R;
+    /// heap size a key made by `make(k, heap)` reports
+    fn kheap_of(_k: u16, heap: usize) -> usize { heap }
     fn make(k: u16, heap: usize) -> Self;
     fn k(&self) -> u16;
     fn kheap(&self) -> usize;
@@ -126,6 +131,8 @@ impl HeapSize for PVal {
 
 impl VK for PKey {
     const TRACKED: bool = false;
+    type Q = PKey;
+    fn with_q<R>(k: u16, f: impl FnOnce(&PKey) -> R) -> R { let q = PKey::make(k, 0); f(&q) }
     fn make(k: u16, heap: usize) -> Self { PKey { k, heap: heap as u32, gen: 0 } }
     fn k(&self) -> u16 { self.k }
     fn kheap(&self) -> usize { self.heap as usize }
@@ -136,11 +143,144 @@ impl VK for PKey {
 
 impl VK for TKey {
     const TRACKED: bool = true;
+    type Q = u16;
+    fn with_q<R>(k: u16, f: impl FnOnce(&u16) -> R) -> R { f(&k) }
     fn make(k: u16, heap: usize) -> Self { TKey::new(k, heap) }
     fn k(&self) -> u16 { self.k }
     fn kheap(&self) -> usize { self.heap }
     fn tid(&self) -> u64 { self.id }
     fn name() -> &'static str { "trackedkey" }
+}
+
+/// `String` keys, looked up through `str`: the borrowed form is unsized,
+/// and key 0 is the empty string (zero bytes in the borrowed form).
+fn key_text(k: u16) -> String {
+    if k == 0 { String::new() } else { format!("{}", k) }
+}
+
+impl VK for String {
+    const TRACKED: bool = false;
+    type Q = str;
+    fn with_q<R>(k: u16, f: impl FnOnce(&str) -> R) -> R { let t = key_text(k); f(t.as_str()) }
+    // never any spare capacity: a clone of a String drops it, which is not the cache's doing
+    fn kheap_of(k: u16, _heap: usize) -> usize { key_text(k).len() }
+    fn make(k: u16, _heap: usize) -> Self { String::from(key_text(k).as_str()) }
+    fn k(&self) -> u16 { if self.is_empty() { 0 } else { self.parse().unwrap_or(u16::MAX) } }
+    fn kheap(&self) -> usize { self.capacity() }
+    fn tid(&self) -> u64 { 0 }
+    fn name() -> &'static str { "stringkey" }
+}
+
+/// Value whose size lives behind a pointer: a mutate that changes only the
+/// inner allocation leaves the value's own bytes untouched.
+#[derive(Debug)]
+pub struct IVal {
+    pub tag: u64,
+    pub inner: Box<IInner>,
+}
+
+#[derive(Debug)]
+pub struct IInner {
+    pub heap: usize,
+    pub gen: u16,
+}
+
+impl Clone for IVal {
+    fn clone(&self) -> IVal {
+        IVal { tag: self.tag, inner: Box::new(IInner { heap: self.inner.heap, gen: self.inner.gen + 1 }) }
+    }
+}
+
+impl HeapSize for IVal {
+    fn heap_size(&self) -> usize {
+        std::mem::size_of::<IInner>() + self.inner.heap
+    }
+}
+
+impl VV for IVal {
+    const TRACKED: bool = false;
+    fn make(tag: u64, heap: usize) -> Self { IVal { tag, inner: Box::new(IInner { heap, gen: 0 }) } }
+    fn tag(&self) -> u64 { self.tag }
+    fn vheap(&self) -> usize { self.inner.heap }
+    fn set_heap(&mut self, h: usize) { self.inner.heap = h }
+    fn tid(&self) -> u64 { 0 }
+    fn gen(&self) -> Option<u16> { Some(self.inner.gen) }
+    fn name() -> &'static str { "indirectval" }
+}
+
+/// Over-aligned value without drop glue (cache-line / SIMD style types).
+#[derive(Debug)]
+#[repr(align(32))]
+pub struct AVal {
+    pub tag: u64,
+    pub heap: u32,
+    pub gen: u16,
+}
+
+impl Clone for AVal {
+    fn clone(&self) -> AVal {
+        AVal { tag: self.tag, heap: self.heap, gen: self.gen + 1 }
+    }
+}
+
+impl HeapSize for AVal {
+    fn heap_size(&self) -> usize {
+        self.heap as usize
+    }
+}
+
+impl VV for AVal {
+    const TRACKED: bool = false;
+    fn make(tag: u64, heap: usize) -> Self { AVal { tag, heap: heap as u32, gen: 0 } }
+    fn tag(&self) -> u64 { self.tag }
+    fn vheap(&self) -> usize { self.heap as usize }
+    fn set_heap(&mut self, h: usize) { self.heap = h as u32 }
+    fn tid(&self) -> u64 { 0 }
+    fn gen(&self) -> Option<u16> { Some(self.gen) }
+    fn name() -> &'static str { "alignedval" }
+}
+
+/// Over-aligned key (alignment 64) without drop glue.
+#[derive(Debug)]
+#[repr(align(64))]
+pub struct AKey {
+    pub k: u16,
+    pub heap: u32,
+    pub gen: u16,
+}
+
+impl Clone for AKey {
+    fn clone(&self) -> AKey { AKey { k: self.k, heap: self.heap, gen: self.gen + 1 } }
+}
+
+impl Hash for AKey {
+    fn hash<H: Hasher>(&self, state: &mut H) { state.write_u16(self.k) }
+}
+
+impl PartialEq for AKey {
+    fn eq(&self, o: &AKey) -> bool { self.k == o.k }
+}
+
+impl Eq for AKey { }
+
+impl HeapSize for AKey {
+    fn heap_size(&self) -> usize { self.heap as usize }
+}
+
+impl std::borrow::Borrow<u16> for AKey {
+    fn borrow(&self) -> &u16 { &self.k }
+}
+
+impl VK for AKey {
+    const TRACKED: bool = false;
+    type Q = u16;
+    fn with_q<R>(k: u16, f: impl FnOnce(&u16) -> R) -> R { f(&k) }
+    fn make(k: u16, heap: usize) -> Self { AKey { k, heap: heap as u32, gen: 0 } }
+    fn k(&self) -> u16 { self.k }
+    fn kheap(&self) -> usize { self.heap as usize }
+    fn tid(&self) -> u64 { 0 }
+    fn gen(&self) -> Option<u16> { Some(self.gen) }
+    fn name() -> &'static str { "alignedkey" }
 }
 
 impl VV for PVal {
@@ -222,7 +362,7 @@ macro_rules! mk {
     };
 }
 
-impl<K: VK, V: VV, S: VS> Mini<K, V, S> {
+impl<K: VK + std::borrow::Borrow<K::Q>, V: VV, S: VS> Mini<K, V, S> {
     pub fn new(cfg: &Config) -> Self {
         tracked::reset();
         crate::hashers::reset_clones();
@@ -240,6 +380,8 @@ impl<K: VK, V: VV, S: VS> Mini<K, V, S> {
             LimSel::Ents(n, d) => (n as usize * e0).saturating_add_signed(d as isize),
             LimSel::Max => usize::MAX,
             LimSel::MaxMinus(d) => usize::MAX - d as usize,
+            LimSel::Pow(e, d) => (1usize << e.min(63)).saturating_add_signed(d as isize),
+            LimSel::ThreeQuarters(d) => ((1usize << 63) + (1usize << 62)).saturating_add_signed(d as isize),
         };
         let cache: LruCache<K, V, S> = S::construct(limit, cfg.capacity.map(|c| c as usize), cfg.hasher);
         let cap0 = cache.capacity();
@@ -294,6 +436,7 @@ impl<K: VK, V: VV, S: VS> Mini<K, V, S> {
                 let extra: usize = m.order.iter().filter(|e| e.k != k).take(n as usize).map(|e| e.size).sum();
                 free.saturating_add(extra).saturating_add_signed(d as isize)
             },
+            SizeSel::Frac(k, d) => (m.limit >> k.min(8)).saturating_add_signed(d as isize),
         };
         target.saturating_sub(base).min(MAX_HEAP).min(u32::MAX as usize / 2)
     }
@@ -336,7 +479,9 @@ impl<K: VK, V: VV, S: VS> Mini<K, V, S> {
                 if tracked_side {
                     let st = tracked::obj(id).map(|o| o.st);
                     if st != Some(St::Dropped) {
-                        self.fail(vec!["C06"], "not-dropped".into(),
+                        // "owning iterators drop whatever was not consumed" is C12's statement too
+                        let tags = if ctx.starts_with("not consumed") { vec!["C06", "C12"] } else { vec!["C06"] };
+                        self.fail(tags, "not-dropped".into(),
                             format!("{} id {} of departed entry {} is {:?}, expected dropped ({})", what, id, e.k, st, ctx));
                     }
                 }
@@ -405,7 +550,7 @@ impl<K: VK, V: VV, S: VS> Mini<K, V, S> {
         let keys: Vec<(u16, u64)> = self.model.order.iter().map(|e| (e.k, e.val_id)).collect();
         for (k, tag) in keys.iter().take(48) {
             let q = K::make(*k, 0);
-            let got = self.c().peek(&q).map(|v| v.tag());
+            let got = self.c().peek::<K>(&q).map(|v| v.tag());
             drop(q);
             if got != Some(*tag) {
                 self.fail(vec!["C04", "C07"], "lookup".into(), format!("after {}: peek({}) = {:?}, expected {}", name, k, got, tag));
@@ -437,7 +582,7 @@ impl<K: VK, V: VV, S: VS> Mini<K, V, S> {
         match op {
             Op::Insert { key, kheap, size } => {
                 let k = self.resolve_key(key);
-                let kheap = *kheap as usize;
+                let kheap = K::kheap_of(k, *kheap as usize);
                 let vheap = self.resolve_vheap(size, k, kheap, true);
                 self.insert(k, kheap, vheap);
             },
@@ -446,16 +591,17 @@ impl<K: VK, V: VV, S: VS> Mini<K, V, S> {
                 for _ in 0..(*count).min(200) {
                     if !self.fails.is_empty() { break; }
                     match self.model.absent(j, self.cfg.universe) {
-                        Some(k) => { j = k.wrapping_add(1); self.insert(k, 0, *vheap as usize); },
+                        Some(k) => { j = k.wrapping_add(1); self.insert(k, K::kheap_of(k, 0), *vheap as usize); },
                         None => break,
                     }
                 }
             },
-            Op::Get { key, .. } | Op::GetEntry { key, .. } | Op::Touch { key, .. } => {
+            Op::Get { key, form } | Op::GetEntry { key, form } | Op::Touch { key, form } => {
                 let k = self.resolve_key(key);
-                let q = K::make(k, 0);
-                let got = self.run_op("get", |c| c.get(&q).map(|v| v.tag()));
-                drop(q);
+                let got = match form {
+                    Form::Owned => { let q = K::make(k, 0); self.run_op("get", |c| c.get::<K>(&q).map(|v| v.tag())) },
+                    Form::Borrowed => self.run_op("get", |c| K::with_q(k, |q| c.get(q).map(|v| v.tag()))),
+                };
                 let pos = self.model.pos(k);
                 let want = pos.map(|i| self.model.order[i].val_id);
                 if let Some(g) = got {
@@ -473,12 +619,13 @@ impl<K: VK, V: VV, S: VS> Mini<K, V, S> {
                 if !self.model.order.is_empty() { self.model.promote(0); }
                 self.check_state("get_lru", None);
             },
-            Op::Peek { key, .. } | Op::PeekEntry { key, .. } | Op::Contains { key, .. } => {
+            Op::Peek { key, form } | Op::PeekEntry { key, form } | Op::Contains { key, form } => {
                 let k = self.resolve_key(key);
                 let fp = self.c().verif_fingerprint();
-                let q = K::make(k, 0);
-                let got = self.run_op("peek", |c| (c.peek(&q).map(|v| v.tag()), c.contains(&q), c.peek_entry(&q).map(|(_, v)| v.tag())));
-                drop(q);
+                let got = match form {
+                    Form::Owned => { let q = K::make(k, 0); self.run_op("peek", |c| (c.peek::<K>(&q).map(|v| v.tag()), c.contains::<K>(&q), c.peek_entry::<K>(&q).map(|(_, v)| v.tag()))) },
+                    Form::Borrowed => self.run_op("peek", |c| K::with_q(k, |q| (c.peek(q).map(|v| v.tag()), c.contains(q), c.peek_entry(q).map(|(_, v)| v.tag())))),
+                };
                 let want = self.model.get(k).map(|e| e.val_id);
                 if let Some((a, b, c)) = got {
                     mk!(self, a == want && b == want.is_some() && c == want, ["C04"], "peek",
@@ -495,11 +642,12 @@ impl<K: VK, V: VV, S: VS> Mini<K, V, S> {
                 mk!(self, same, ["C19"], "changed:peek_lru", "peek_lru/peek_mru/len/capacity changed the internal structure");
                 self.check_state("peek_lru", None);
             },
-            Op::Remove { key, .. } | Op::RemoveEntry { key, .. } => {
+            Op::Remove { key, form } | Op::RemoveEntry { key, form } => {
                 let k = self.resolve_key(key);
-                let q = K::make(k, 0);
-                let got = self.run_op("remove_entry", |c| c.remove_entry(&q));
-                drop(q);
+                let got = match form {
+                    Form::Owned => { let q = K::make(k, 0); self.run_op("remove_entry", |c| c.remove_entry::<K>(&q)) },
+                    Form::Borrowed => self.run_op("remove_entry", |c| K::with_q(k, |q| c.remove_entry(q))),
+                };
                 let ent = self.model.pos(k).map(|i| self.model.remove_at(i));
                 self.removed("remove_entry", got, ent);
             },
@@ -514,14 +662,15 @@ impl<K: VK, V: VV, S: VS> Mini<K, V, S> {
                 let ent = if n > 0 { Some(self.model.remove_at(n - 1)) } else { None };
                 self.removed("remove_mru", got, ent);
             },
-            Op::Mutate { key, size, .. } => {
+            Op::Mutate { key, size, form } => {
                 let k = self.resolve_key(key);
                 let pos = self.model.pos(k);
                 let kheap = pos.map(|i| self.model.order[i].kheap).unwrap_or(0);
                 let new_vheap = self.resolve_vheap(size, k, kheap, true);
-                let q = K::make(k, 0);
-                let got = self.run_op("mutate", |c| c.mutate(&q, |v| { v.set_heap(new_vheap); 7u8 }));
-                drop(q);
+                let got = match form {
+                    Form::Owned => { let q = K::make(k, 0); self.run_op("mutate", |c| c.mutate::<K, _, _>(&q, |v| { v.set_heap(new_vheap); 7u8 })) },
+                    Form::Borrowed => self.run_op("mutate", |c| K::with_q(k, |q| c.mutate(q, |v| { v.set_heap(new_vheap); 7u8 }))),
+                };
                 let limit = self.model.limit;
                 match (pos, got) {
                     (_, None) => return,
@@ -576,6 +725,8 @@ impl<K: VK, V: VV, S: VS> Mini<K, V, S> {
                     LimSel::Ents(n, d) => (n as usize * self.e0).saturating_add_signed(d as isize),
                     LimSel::Max => usize::MAX,
                     LimSel::MaxMinus(d) => usize::MAX - d as usize,
+                    LimSel::Pow(e, d) => (1usize << e.min(63)).saturating_add_signed(d as isize),
+                    LimSel::ThreeQuarters(d) => ((1usize << 63) + (1usize << 62)).saturating_add_signed(d as isize),
                 };
                 if self.run_op("set_max_size", |c| c.set_max_size(new_limit)).is_none() { return; }
                 let ev = self.model.evict_to(new_limit);
@@ -681,8 +832,62 @@ impl<K: VK, V: VV, S: VS> Mini<K, V, S> {
                 }
             },
             Op::IterWalk { kind, calls, rest, fate } => self.walk(*kind, calls, *rest, *fate),
-            Op::TryInsert { .. } | Op::Churn { .. } | Op::Side(_) | Op::Inject { .. } => { },
+            Op::TryInsert { key, kheap, size } => {
+                let k = self.resolve_key(key);
+                let kheap = K::kheap_of(k, *kheap as usize);
+                let vheap = self.resolve_vheap(size, k, kheap, false);
+                self.try_insert(k, kheap, vheap);
+            },
+            Op::Churn { .. } | Op::Side(_) | Op::Inject { .. } => { },
         }
+    }
+
+    fn try_insert(&mut self, k: u16, kheap: usize, vheap: usize) {
+        let limit = self.model.limit;
+        let total = self.model.total();
+        let tag = self.fresh_tag();
+        let key = K::make(k, kheap);
+        let val = V::make(tag, vheap);
+        // the public size function is the reference for every figure below
+        let entry = lru_mem::entry_size(&key, &val);
+        let (kid, tag) = (key.tid(), val.tag());
+        let present = self.model.contains(k);
+        let fp = self.c().verif_fingerprint();
+        let r = match self.run_op("try_insert", move |c| c.try_insert(key, val)) { Some(r) => r, None => return };
+        let want = if entry > limit { "too-large" } else if entry > limit - total.min(limit) { "would-eject" } else if present { "occupied" } else { "ok" };
+        use lru_mem::TryInsertError as E;
+        let got = match &r { Ok(()) => "ok", Err(E::EntryTooLarge { .. }) => "too-large", Err(E::WouldEjectLru { .. }) => "would-eject", Err(E::OccupiedEntry { .. }) => "occupied" };
+        mk!(self, got == want, ["C10"], format!("try_insert-outcome:{}:{}", want, got),
+            "try_insert of key {} (present {}) with entry_size {} into current {} / max {}: outcome {}, expected {}", k, present, entry, total, limit, got, want);
+        match r {
+            Ok(()) => {
+                if got == want {
+                    self.model.push(Ent { k, key_id: kid, val_id: tag, kheap, vheap, tag: 0, size: entry });
+                }
+                else {
+                    self.leaks_allowed = true;
+                    return;
+                }
+            },
+            Err(e) => {
+                match &e {
+                    E::EntryTooLarge { entry_size, max_size, .. } =>
+                        mk!(self, *entry_size == entry && *max_size == limit, ["C10"], "try_insert-err-fields", "EntryTooLarge reports entry_size {} max_size {}, actual {} {}", entry_size, max_size, entry, limit),
+                    E::WouldEjectLru { entry_size, free_memory, .. } =>
+                        mk!(self, *entry_size == entry && *free_memory == limit - total.min(limit), ["C10"], "try_insert-err-fields", "WouldEjectLru reports entry_size {} free_memory {}, actual {} {}", entry_size, free_memory, entry, limit - total.min(limit)),
+                    E::OccupiedEntry { .. } => { },
+                }
+                let (rk, rv) = e.into_entry();
+                mk!(self, rk.k() == k && rv.tag() == tag, ["C10"], "try_insert-err-identity", "the error does not carry the pair that was passed");
+                self.received_k(rk, "try_insert error");
+                self.received_v(rv, "try_insert error");
+                let same = self.c().verif_fingerprint() == fp;
+                mk!(self, same, ["C10"], "try_insert-changed", "a rejected try_insert changed the cache");
+            },
+        }
+        let nf = self.fails.len();
+        self.check_state("try_insert", None);
+        for f in self.fails.iter_mut().skip(nf) { if !f.has("C10") { f.tags.push("C10"); } }
     }
 
     fn insert(&mut self, k: u16, kheap: usize, vheap: usize) {
@@ -691,11 +896,19 @@ impl<K: VK, V: VV, S: VS> Mini<K, V, S> {
         let tag = self.fresh_tag();
         let key = K::make(k, kheap);
         let val = V::make(tag, vheap);
+        let public = lru_mem::entry_size(&key, &val);
+        if public != entry {
+            // the harness' own size model does not hold for this instantiation: not a verdict
+            self.events.insert("size-model-mismatch".into());
+            self.leaks_allowed = true;
+            return;
+        }
         let (kid, tag) = (key.tid(), val.tag());
         let r = match self.run_op("insert", move |c| c.insert(key, val)) { Some(r) => r, None => return };
         match r {
-            Err(lru_mem::InsertError::EntryTooLarge { key, value, .. }) => {
+            Err(lru_mem::InsertError::EntryTooLarge { key, value, entry_size, max_size }) => {
                 mk!(self, entry > limit, ["C10"], "insert-spurious", "insert of size {} failed, max_size {}", entry, limit);
+                mk!(self, entry_size == entry && max_size == limit, ["C10"], "insert-err-fields", "EntryTooLarge reports entry_size {} max_size {}, actual {} {}", entry_size, max_size, entry, limit);
                 self.received_k(key, "insert error");
                 self.received_v(value, "insert error");
             },
@@ -744,28 +957,20 @@ impl<K: VK, V: VV, S: VS> Mini<K, V, S> {
         self.check_state(name, None);
     }
 
-    fn walk(&mut self, kind: IterKind, calls: &[bool], rest: Rest, fate: Fate) {
+    fn walk(&mut self, kind: IterKind, calls: &[Call], rest: Rest, fate: Fate) {
         let order = self.model.order.clone();
         let len = order.len();
-        let mut plan: Vec<bool> = calls.to_vec();
-        if rest != Rest::Stop {
-            let remaining = len.saturating_sub(plan.len().min(len)) + 2;
-            for i in 0..remaining {
-                plan.push(match rest { Rest::Front => false, Rest::Back => true, _ => i % 2 == 1 });
-            }
-        }
-        let mut exp: Vec<Option<usize>> = Vec::new();
-        let (mut i, mut j) = (0usize, 0usize);
-        for &b in &plan {
-            if i + j >= len { exp.push(None); }
-            else if b { exp.push(Some(len - 1 - j)); j += 1; }
-            else { exp.push(Some(i)); i += 1; }
-        }
-        let yielded: BTreeSet<usize> = exp.iter().flatten().copied().collect();
+        let plan = plan_walk(calls, rest, len);
+        let fate = if plan.fin.finishing() { Fate::Drop } else { fate };
+        let exp = expect_walk(&plan, len);
+        let yielded: BTreeSet<usize> = exp.yielded.clone();
         let forget = fate == Fate::Forget;
         let fp = self.c().verif_fingerprint();
-        // got: (key k, value tag) halves as available
-        let mut got: Vec<Option<(Option<u16>, Option<u64>)>> = Vec::new();
+        // got: (key k, value tag) halves as available; size_hint answers are not recorded
+        type Half = (Option<u16>, Option<u64>);
+        let mut got: Vec<Option<Option<Half>>> = Vec::new();
+        let mut fin_got: Vec<Half> = Vec::new();
+        let mut fin_count: Option<usize> = None;
         let mut taken_k: Vec<K> = Vec::new();
         let mut taken_v: Vec<V> = Vec::new();
         let consuming = kind.consuming();
@@ -773,28 +978,31 @@ impl<K: VK, V: VV, S: VS> Mini<K, V, S> {
         let mut cache = self.cache.take().unwrap();
         let r = {
             let got = &mut got;
+            let fin_got = &mut fin_got;
+            let fin_count = &mut fin_count;
             let tk = &mut taken_k;
             let tv = &mut taken_v;
             let plan = &plan;
             catch_unwind(AssertUnwindSafe(move || -> Option<LruCache<K, V, S>> {
                 macro_rules! drive {
                     ($it:expr, $f:expr) => {{
-                        let mut it = $it;
-                        for &b in plan.iter() {
-                            let r = if b { it.next_back() } else { it.next() };
-                            got.push(r.map($f));
-                        }
-                        if forget { std::mem::forget(it); }
+                        let mut f = $f;
+                        drive_walk($it, plan, forget, |o| match o {
+                            WalkOut::Item(x) => got.push(Some(x.map(&mut f))),
+                            WalkOut::Hint(..) => got.push(None),
+                            WalkOut::Fin(x) => fin_got.push(f(x)),
+                            WalkOut::Count(n) => *fin_count = Some(n),
+                        });
                     }};
                 }
                 match kind {
-                    IterKind::Iter => { drive!(cache.iter(), |(k, v)| (Some(k.k()), Some(v.tag()))); Some(cache) },
-                    IterKind::Keys => { drive!(cache.keys(), |k| (Some(k.k()), None)); Some(cache) },
-                    IterKind::Values => { drive!(cache.values(), |v| (None, Some(v.tag()))); Some(cache) },
-                    IterKind::Drain => { drive!(cache.drain(), |(k, v)| { let r = (Some(k.k()), Some(v.tag())); tk.push(k); tv.push(v); r }); Some(cache) },
-                    IterKind::IntoIter => { drive!(cache.into_iter(), |(k, v)| { let r = (Some(k.k()), Some(v.tag())); tk.push(k); tv.push(v); r }); None },
-                    IterKind::IntoKeys => { drive!(cache.into_keys(), |k| { let r = (Some(k.k()), None); tk.push(k); r }); None },
-                    IterKind::IntoValues => { drive!(cache.into_values(), |v| { let r = (None, Some(v.tag())); tv.push(v); r }); None },
+                    IterKind::Iter => { drive!(cache.iter(), |(k, v): (&K, &V)| (Some(k.k()), Some(v.tag()))); Some(cache) },
+                    IterKind::Keys => { drive!(cache.keys(), |k: &K| (Some(k.k()), None)); Some(cache) },
+                    IterKind::Values => { drive!(cache.values(), |v: &V| (None, Some(v.tag()))); Some(cache) },
+                    IterKind::Drain => { drive!(cache.drain(), |(k, v): (K, V)| { let r = (Some(k.k()), Some(v.tag())); tk.push(k); tv.push(v); r }); Some(cache) },
+                    IterKind::IntoIter => { drive!(cache.into_iter(), |(k, v): (K, V)| { let r = (Some(k.k()), Some(v.tag())); tk.push(k); tv.push(v); r }); None },
+                    IterKind::IntoKeys => { drive!(cache.into_keys(), |k: K| { let r = (Some(k.k()), None); tk.push(k); r }); None },
+                    IterKind::IntoValues => { drive!(cache.into_values(), |v: V| { let r = (None, Some(v.tag())); tv.push(v); r }); None },
                 }
             }))
         };
@@ -812,17 +1020,29 @@ impl<K: VK, V: VV, S: VS> Mini<K, V, S> {
             },
         };
         let tags12: Vec<&'static str> = if forget { vec!["C12", "C17"] } else { vec!["C12"] };
-        let exhausted_at = exp.iter().position(|e| e.is_none());
-        for (n, (e, g)) in exp.iter().zip(got.iter()).enumerate() {
+        let exhausted_at = exp.exhausted_at;
+        let want_of = |p: usize| -> Half { match kind {
+            IterKind::Keys | IterKind::IntoKeys => (Some(order[p].k), None),
+            IterKind::Values | IterKind::IntoValues => (None, Some(order[p].val_id)),
+            _ => (Some(order[p].k), Some(order[p].val_id)),
+        } };
+        let mut ok = true;
+        for (n, (e, g)) in exp.per_call.iter().zip(got.iter()).enumerate() {
             if exhausted_at.map(|x| n > x).unwrap_or(false) && !kind.fused() { continue; }
-            let want = e.map(|p| match kind {
-                IterKind::Keys | IterKind::IntoKeys => (Some(order[p].k), None),
-                IterKind::Values | IterKind::IntoValues => (None, Some(order[p].val_id)),
-                _ => (Some(order[p].k), Some(order[p].val_id)),
-            });
+            let g = match g { Some(g) => g, None => continue };
+            let want = e.map(want_of);
             if *g != want {
-                self.fail(tags12.clone(), format!("walk:{}", kind.name()), format!("{} call #{} returned {:?}, expected {:?} (len {})", kind.name(), n + 1, g, want, len));
+                ok = false;
+                self.fail(tags12.clone(), format!("walk:{}", kind.name()), format!("{} call #{} ({}) returned {:?}, expected {:?} (len {}, calls {})",
+                    kind.name(), n + 1, plan.calls[n].letter(), g, want, len, calls_text(&plan.calls)));
                 break;
+            }
+        }
+        if ok && plan.fin.finishing() && (exhausted_at.is_none() || kind.fused()) {
+            let want: Vec<Half> = exp.fin_items.iter().map(|&p| want_of(p)).collect();
+            if fin_count != exp.fin_count || fin_got != want {
+                self.fail(tags12.clone(), format!("walk-fin:{}", kind.name()), format!("{} after calls {}: {} gave {:?} / count {:?}, expected {:?} / {:?} (len {})",
+                    kind.name(), calls_text(&plan.calls), plan.fin.to_text(), fin_got, fin_count, want, exp.fin_count, len));
             }
         }
         for k in taken_k { self.received_k(k, kind.name()); }
@@ -893,7 +1113,9 @@ impl<K: VK, V: VV, S: VS> Mini<K, V, S> {
     }
 }
 
-pub const VARIANTS: [&str; 9] = [
+pub const VARIANTS: [&str; 14] = [
+    "stringkey+trackedval+statefulhasher", "stringkey+indirectval+defaulthasher", "trackedkey+indirectval+zsthasher",
+    "plainkey+alignedval+statefulhasher", "alignedkey+trackedval+defaulthasher",
     "trackedkey+trackedval+defaulthasher", "plainkey+plainval+defaulthasher",
     "trackedkey+plainval+statefulhasher", "plainkey+trackedval+statefulhasher", "plainkey+plainval+statefulhasher",
     "trackedkey+trackedval+zsthasher", "trackedkey+plainval+zsthasher", "plainkey+trackedval+zsthasher", "plainkey+plainval+zsthasher",
@@ -905,7 +1127,7 @@ pub struct VariantOutcome {
     pub events: BTreeSet<String>,
 }
 
-fn run_one<K: VK, V: VV, S: VS>(case: &Case) -> VariantOutcome {
+fn run_one<K: VK + std::borrow::Borrow<K::Q>, V: VV, S: VS>(case: &Case) -> VariantOutcome {
     let mut m = Mini::<K, V, S>::new(&case.config);
     for op in &case.ops {
         m.step(op);
@@ -917,6 +1139,11 @@ fn run_one<K: VK, V: VV, S: VS>(case: &Case) -> VariantOutcome {
 
 pub fn run_variant(name: &str, case: &Case) -> Option<VariantOutcome> {
     Some(match name {
+        "stringkey+trackedval+statefulhasher" => run_one::<String, TVal, VHasher>(case),
+        "stringkey+indirectval+defaulthasher" => run_one::<String, IVal, hashbrown::hash_map::DefaultHashBuilder>(case),
+        "trackedkey+indirectval+zsthasher" => run_one::<TKey, IVal, ZHasher>(case),
+        "plainkey+alignedval+statefulhasher" => run_one::<PKey, AVal, VHasher>(case),
+        "alignedkey+trackedval+defaulthasher" => run_one::<AKey, TVal, hashbrown::hash_map::DefaultHashBuilder>(case),
         "trackedkey+trackedval+defaulthasher" => run_one::<TKey, TVal, hashbrown::hash_map::DefaultHashBuilder>(case),
         "plainkey+plainval+defaulthasher" => run_one::<PKey, PVal, hashbrown::hash_map::DefaultHashBuilder>(case),
         "trackedkey+plainval+statefulhasher" => run_one::<TKey, PVal, VHasher>(case),
